@@ -19,6 +19,7 @@ type genOpts struct {
 	MaxDim     int
 	Comparison bool    // allow comparison ops
 	Linear     bool    // only linear, non-expanding ops
+	NoExpand   bool    // no operation expands an operand by broadcasting
 	PSynth     float64 // probability of synthesising a partner leaf instead of reusing one
 	PTracked   float64 // tracking probability for synthesised leaves
 	Client     int
@@ -93,7 +94,7 @@ func bcastShape(a, b []int) []int {
 
 // partnerShape derives a broadcast-compatible partner shape from x's shape.
 func partnerShape(r *sim.Rand, x []int, o *genOpts) []int {
-	if o.Linear || r.Bool(0.5) {
+	if o.Linear || o.NoExpand || r.Bool(0.5) {
 		return cpI(x)
 	}
 	// drop some leading dims, set some dims to 1, or add leading dims
@@ -152,6 +153,9 @@ func propose(r *sim.Rand, ids *idAlloc, av []avail, x avail, o *genOpts) []sim.S
 			}
 		}
 		if c == "cmp" && !o.Comparison {
+			continue
+		}
+		if c == "broadcast" && o.NoExpand {
 			continue
 		}
 		w := 1
@@ -360,7 +364,7 @@ func propose(r *sim.Rand, ids *idAlloc, av []avail, x avail, o *genOpts) []sim.S
 		st.Op = ops[r.Intn(len(ops))]
 		ps := partnerShape(r, x.Shape, o)
 		pid, pre := partner(ps, func(s []int) bool {
-			if o.Linear {
+			if o.Linear || o.NoExpand {
 				return sim.ShapeEq(s, x.Shape)
 			}
 			return bcastCompatible(s, x.Shape) && sim.NElems(bcastShape(s, x.Shape)) <= o.MaxElems
@@ -395,6 +399,9 @@ func propose(r *sim.Rand, ids *idAlloc, av []avail, x avail, o *genOpts) []sim.S
 		}
 		ps[len(ps)-1] = x.Shape[rank-1]
 		pid, pre := partner(ps, func(s []int) bool {
+			if o.NoExpand {
+				return sim.ShapeEq(s, x.Shape)
+			}
 			return len(s) >= 1 && s[len(s)-1] == x.Shape[rank-1] && bcastCompatible(s, x.Shape) &&
 				sim.NElems(bcastShape(s, x.Shape)) <= o.MaxElems
 		})
@@ -424,6 +431,9 @@ func propose(r *sim.Rand, ids *idAlloc, av []avail, x avail, o *genOpts) []sim.S
 		}
 		pid, pre := partner(ps, func(s []int) bool {
 			if len(s) < 2 || !bcastCompatible(s[:len(s)-2], x.Shape[:rank-2]) {
+				return false
+			}
+			if o.NoExpand && !sim.ShapeEq(s[:len(s)-2], x.Shape[:rank-2]) {
 				return false
 			}
 			if xFirst {
